@@ -609,6 +609,9 @@ func (v *fnVC) ret(x *ssa.Return) {
 		if name == "" {
 			name = fmt.Sprintf("%d", i+1)
 		}
+		cl := v.con.Ensures[i]
+		cl.Name = name
+		v.curClause = &cl
 		if len(edges) > 1 {
 			save := v.reach[v.blk]
 			for _, ec := range edges {
@@ -616,9 +619,11 @@ func (v *fnVC) ret(x *ssa.Return) {
 				v.oblige("post."+name, e.Text, t, x.Pos())
 			}
 			v.reach[v.blk] = save
+			v.curClause = nil
 			continue
 		}
 		v.oblige("post."+name, e.Text, t, x.Pos())
+		v.curClause = nil
 	}
 }
 
